@@ -578,7 +578,8 @@ def corpus_codes(tier="quick", seed=0, stdlib=True):
     out = []
     for p in compile_corpus(tier, seed):
         out.append({"code": p.code, "source": p.src, "origin": "generated", "name": p.pid,
-                    "variant": p.variant, "family": p.desc.get("family"), "tree": p.desc["body"]})
+                    "variant": p.variant, "family": p.desc.get("family"), "tree": p.desc["body"],
+                    "flags": p.desc.get("flags"), "sites": p.sites, "program": p})
     if stdlib:
         std, _ = stdlib_codes()
         out.extend(std)
